@@ -84,6 +84,8 @@ func init() {
 				"pairs_compared": 400000 * m, "markers_compared": 400000 * m, "predef_styles": 49,
 				"t_sys-cyclic": 2000 * m, "t_sys-fixed": 2000 * m, "t_sys-symbolic": 2000 * m, "t_sys-alphabetic": 2000 * m, "t_sys-numeric": 2000 * m, "t_sys-additive": 2000 * m,
 				"t_out-of-range": 2000 * m, "t_algorithm-failed": 500 * m, "t_padded": 500 * m, "t_negative-sign": 500 * m, "t_fallback-loop": 50 * m, "t_unknown-style": 50 * m,
+				"t_cyclic<=0": 2000 * m, "t_additive-zero-weight-reached": 500 * m, "t_negative-2sym": 2000 * m, "t_pad-nonascii": 200 * m, "t_neg-algorithm-failed": 500 * m, "t_range-inf-lower": 2000 * m, "t_extends-undefined": 500 * m,
+				"tree_set_after_increment_same_name": 100 * m, "tree_li_value_hint": 100 * m,
 				"t_extends": 1000 * m, "t_extends-cycle": 100 * m, "t_extends-chain>=2": 100 * m,
 				"noise_cases": 300 * m, "noise_override-earlier": 10 * m, "noise_invalid-after": 10 * m, "noise_invalid-before": 10 * m, "noise_undefining-rule-after": 10 * m, "noise_reserved-name-rule": 10 * m,
 				"doc_texts_compared": 2000 * m, "doc_markers_compared": 1000 * m, "anon_compared": 500 * m,
